@@ -295,7 +295,9 @@ class Report:
         self.mc = []              # list of (name, generated, distinct)
         self.assumptions = []
         self.findings = [f for f in load_findings() if f["property"] == pid and f.get("status") == "known"]
-        self.rdir = os.path.join(VERIF, "replays", pid)
+        # runs against a scratch copy (self-tests with VERIF_REPO) never touch the registered evidence
+        self.scratch = os.path.realpath(REPO) != "/repo"
+        self.rdir = os.path.join(VERIF, "replays_scratch" if self.scratch else "replays", pid)
 
     def add_mc(self, name, r):
         self.mc.append({"model": name, "states_generated": r.get("generated", 0),
@@ -325,7 +327,8 @@ class Report:
             self.violation(rec, clause, detail, trace=bytid.get(rec.get("tid")) if "tid" in rec else None)
 
     def finish(self, level="model_checking", rule="", extra_cov=None, assumptions=None):
-        os.makedirs(os.path.join(VERIF, "evidence"), exist_ok=True)
+        evdir = os.path.join(VERIF, "evidence_scratch" if self.scratch else "evidence")
+        os.makedirs(evdir, exist_ok=True)
         for what, n in sorted(self.known_hits.items()):
             print("KNOWN-FINDING: property=%s %s (%d records)" % (self.pid, what, n))
         if self.violations:
@@ -358,7 +361,8 @@ class Report:
         ev = {"property_id": self.pid, "tier": self.tier, "seed": seed(), "level": level,
               "coverage": cov, "assumptions": (assumptions or []) + self.assumptions,
               "wall_s": round(time.time() - self.t0, 1), "violations": len(self.violations)}
-        with open(os.path.join(VERIF, "evidence", self.pid + ".json"), "w") as f:
+        ev["repo"] = os.path.realpath(REPO)
+        with open(os.path.join(evdir, self.pid + ".json"), "w") as f:
             json.dump(ev, f, indent=1, sort_keys=True)
         print("%s %s tier=%s evaluations=%d traces=%d states=%d wall=%.0fs violations=%d" % (
             "FAIL" if self.violations else "PASS", self.pid, self.tier, cov["evaluations"],
